@@ -113,7 +113,15 @@ func (md *c15Model) load(m *c15Mod) (map[string]string, bool) {
 		}
 		names := exportsOf(dep)
 		if imp.Items != nil {
-			names = imp.Items
+			var listed []string
+			for _, it := range imp.Items {
+				for _, ex := range names {
+					if it == ex {
+						listed = append(listed, it)
+					}
+				}
+			}
+			names = listed
 		}
 		for _, n := range names {
 			visible[n] = dep.Name
@@ -259,7 +267,15 @@ func runC15(t *zsim.Tape, cfg *hlib.Config) *hlib.Outcome {
 				seen[imp.Target] = true
 				names := exportsOf(dep)
 				if imp.Items != nil {
-					names = imp.Items
+					var listed []string
+					for _, it := range imp.Items {
+						for _, ex := range names {
+							if it == ex {
+								listed = append(listed, it)
+							}
+						}
+					}
+					names = listed
 				}
 				for _, n := range names {
 					if strings.Contains(n, "法") {
@@ -482,6 +498,12 @@ func c15Subset(t *zsim.Tape, xs []string) []string {
 	}
 	if len(out) > 1 && t.Draw(4) == 3 {
 		out = out[1:] // a list that does not start with the first export
+	}
+	switch t.Draw(6) {
+	case 4: // a name the module does not export is silently skipped: the others are imported
+		out = append(out, "无此名")
+	case 5: // nothing of what is listed exists: nothing is imported
+		out = []string{"无此名", "也无此名"}
 	}
 	for i := len(out) - 1; i > 0; i-- {
 		j := i - t.Draw(i+1)
